@@ -42,15 +42,28 @@ package utils
 //@   ensures [C05.clean.empty] p == "" ==> result == "/" && calls(path.Clean) == 0
 //@   ensures [C05.clean.always] p != "" ==> calls(path.Clean) == 1 && arg(path.Clean, 1, path) == (at(p, 0) != 47 ? concat("/", p) : p)
 //@   ensures [C05.clean.slash] p != "" && (at(arg(path.Clean, 1, path), len(arg(path.Clean, 1, path)) - 1) != 47 || ret(path.Clean, 1) == "/") ==> result == ret(path.Clean, 1)
+// a host without a colon is returned as it is; otherwise the port is split off by net.SplitHostPort, and a host that
+// does not split is returned unchanged
 //@ func StripHostPort(h)
-//@   trusted "host:port splitting abstracted by an uninterpreted function of the string"
-//@   pure
-//@   ensures result == uf_s_StripHostPort(h)
+//@   props C05
+//@   modifies nothing
+//@   ensures [C05.host.plain] !ret(strings.Contains, 1) ==> result == h && calls(net.SplitHostPort) == 0
+//@   ensures [C05.host.split] ret(strings.Contains, 1) ==> calls(net.SplitHostPort) == 1 && arg(net.SplitHostPort, 1, hostport) == h && (ret(net.SplitHostPort, 1, 2) != nil ? result == h : result == ret(net.SplitHostPort, 1, 0))
+//@   ensures [C05.host.test]  calls(strings.Contains) == 1 && arg(strings.Contains, 1, s) == h && arg(strings.Contains, 1, substr) == ":"
 
-//@ func CheckInvalidHeaderChar(s)
-//@   trusted "byte scan abstracted by an uninterpreted predicate of the string"
-//@   pure
-//@   ensures result == uf_b_invalidHeaderChar(s)
+// a header value is invalid exactly when it contains a control byte (0-31 or 127) other than space and tab: the scan
+// looks at every byte (loop invariant over the scanned prefix), stops at the first offender, and terminates
+//@ spec badHeaderByte(b byte) bool = (b < 32 || b == 127) && !(b == 32 || b == 9)
+//@ spec invalidHeaderChar(s string) bool = !(forall k int :: 0 <= k && k < len(s) ==> !badHeaderByte(at(s, k)))
+//@ func CheckInvalidHeaderChar(val)
+//@   props C05, C09
+//@   modifies nothing
+//@   loop 1 invariant 0 <= i && i <= l && l == len(val)
+//@   loop 1 invariant forall k int :: 0 <= k && k < i ==> !badHeaderByte(at(val, k))
+//@   loop 1 decreases l - i
+//@   ensures [C05.hdr.clean] !result ==> forall k int :: 0 <= k && k < len(val) ==> !badHeaderByte(at(val, k))
+//@   ensures [C05.hdr.bad]   result ==> invalidHeaderChar(val)
+//@   ensures [C05.hdr.def]   result == invalidHeaderChar(val)
 
 // ---- timers ------------------------------------------------------------------------------------------------------
 // What a single call does is under contract: which runtime timer is armed, with which duration, what the waiting
